@@ -428,6 +428,101 @@ where
     }
 }
 
+/// Safe façade over the crate-private MPSC queue for the verification harness
+/// (V1); a producer handle can be cloned, the consumer handle cannot.
+#[cfg(nexosim_verif)]
+#[allow(missing_docs, missing_debug_implementations)]
+pub mod verif_queue {
+    use std::sync::Arc;
+
+    use recycle_box::RecycleBox;
+
+    use super::queue::{MessageBorrow, PopError, PushError, Queue};
+
+    #[derive(Clone)]
+    pub struct VProducer {
+        q: Arc<Queue<u64>>,
+    }
+
+    pub struct VConsumer {
+        // Declared before `q` so that it is dropped first.
+        borrow: Option<MessageBorrow<'static, u64>>,
+        q: Arc<Queue<u64>>,
+    }
+
+    #[derive(Debug, Clone, Copy, PartialEq, Eq)]
+    pub enum VPush {
+        Ok,
+        Full,
+        Closed,
+    }
+
+    #[derive(Debug, Clone, Copy, PartialEq, Eq)]
+    pub enum VPop {
+        Value(u64),
+        Empty,
+        Closed,
+    }
+
+    pub fn queue(capacity: usize) -> (VProducer, VConsumer) {
+        let q = Arc::new(Queue::new(capacity));
+
+        (VProducer { q: q.clone() }, VConsumer { borrow: None, q })
+    }
+
+    impl VProducer {
+        pub fn push(&self, value: u64) -> VPush {
+            match self.q.push(|b| RecycleBox::recycle(b, value)) {
+                Ok(()) => VPush::Ok,
+                Err(PushError::Full(_)) => VPush::Full,
+                Err(PushError::Closed) => VPush::Closed,
+            }
+        }
+        pub fn close(&self) {
+            self.q.close()
+        }
+        pub fn is_closed(&self) -> bool {
+            self.q.is_closed()
+        }
+        pub fn len(&self) -> usize {
+            self.q.len()
+        }
+    }
+
+    impl VConsumer {
+        /// Pops a message; the slot stays borrowed until `release` (or the next
+        /// `pop`) is called.
+        pub fn pop(&mut self) -> VPop {
+            self.borrow = None;
+            // Safety: `VConsumer` is not clonable and `pop` takes `&mut self`.
+            match unsafe { self.q.pop() } {
+                Ok(b) => {
+                    let v = *b;
+                    // Safety: the borrow never outlives the queue, which is kept
+                    // alive by `self.q` and dropped after `self.borrow`.
+                    self.borrow = Some(unsafe {
+                        std::mem::transmute::<MessageBorrow<'_, u64>, MessageBorrow<'static, u64>>(b)
+                    });
+
+                    VPop::Value(v)
+                }
+                Err(PopError::Empty) => VPop::Empty,
+                Err(PopError::Closed) => VPop::Closed,
+            }
+        }
+        /// Gives the borrowed slot back to the queue.
+        pub fn release(&mut self) {
+            self.borrow = None;
+        }
+        pub fn close(&self) {
+            self.q.close()
+        }
+        pub fn len(&self) -> usize {
+            self.q.len()
+        }
+    }
+}
+
 /// Unique identifier for a channel.
 #[derive(Copy, Clone, PartialEq, Eq, PartialOrd, Ord)]
 pub(crate) struct ChannelId(usize);
